@@ -44,10 +44,10 @@ pub const WORK_BUDGET: u64 = 50_000;
 /// wall-clock limit of one solver call (last resort: the work budget is the reported reason
 /// whenever the solver keeps ticking; a call that stops ticking is aborted and reported by the
 /// parent process as the case in flight)
-pub const CALL_SECONDS: u64 = 90;
+pub const CALL_SECONDS: u64 = 240;
 /// the SLG engine's steps (iterations of ensure_root_answer) are much heavier than the recursive
 /// solver's: clean solves of the generated subjects need < 2000 of them
-pub const SLG_WORK_BUDGET: u64 = 10_000;
+pub const SLG_WORK_BUDGET: u64 = 6_000;
 pub const ROUNDS: usize = 64;
 
 // ------------------------------------------------------------------------------------------------
@@ -1418,14 +1418,15 @@ pub fn oracle_c11(ctx: &Ctx, out: &mut Out, s: &Subject, rng: &mut Rng) {
                 if r2.is_err() || !weaker_or_equal(&r2, &fresh[gi]) {
                     let c = match &r2 {
                         Err(m) if m.contains("unwrap()") && name != "slg" => "recursive_unwrap_after_interrupt".to_string(),
-                        _ => format!("{}_second_interrupted_answer_contradicts", name),
+                        _ if name != "slg" && is_mixed(s) => "recursive_mixed_cycle_cached".to_string(),
+                        _ => format!("{}_second_interrupted_answer_contradicts", if name == "slg" { "slg" } else { "recursive" }),
                     };
                     fail_once(out, &mut seen, &format!("{}: second interrupted solve of `{}` answers {} but the full answer is {}", name, low.goals[gi].0, render(&r2), render(&fresh[gi])), &input("; then callback false at its 2nd call"), &c);
                 }
                 let r3 = solve_on(&mut *solver, db, g);
                 out.evaluations_extra += 1;
                 if r3 != fresh[gi] {
-                    let c = if plain_history_differs(choice, db, &[g, g, g], &fresh[gi]) { history_classifier(name, s, &r3, &fresh[gi]) } else if name == "slg" { "slg_answer_after_interrupt" } else { "recursive_cache_after_interrupt" };
+                    let c = if plain_history_differs(choice, db, &[g, g, g], &fresh[gi]) { history_classifier(name, s, &r3, &fresh[gi]) } else if name == "slg" { "slg_answer_after_interrupt" } else if precision_only(&r3, &fresh[gi]) { "recursive_ambig_precision_depends_on_history" } else { "recursive_cache_after_interrupt" };
                     fail_once(out, &mut seen, &format!("{}: after an interrupted solve (callback false: {}) `{}` is answered {} but a fresh solver answers {}", name, sname, low.goals[gi].0, render(&r3), render(&fresh[gi])), &input("; then solve"), c);
                     continue;
                 }
@@ -1433,7 +1434,7 @@ pub fn oracle_c11(ctx: &Ctx, out: &mut Out, s: &Subject, rng: &mut Rng) {
                 let r4 = solve_on(&mut *solver, db, &low.goals[other].1);
                 out.evaluations_extra += 1;
                 if r4 != fresh[other] {
-                    let c = if plain_history_differs(choice, db, &[g, g, g, &low.goals[other].1], &fresh[other]) { history_classifier(name, s, &r4, &fresh[other]) } else if name == "slg" { "slg_answer_after_interrupt" } else { "recursive_cache_after_interrupt" };
+                    let c = if plain_history_differs(choice, db, &[g, g, g, &low.goals[other].1], &fresh[other]) { history_classifier(name, s, &r4, &fresh[other]) } else if name == "slg" { "slg_answer_after_interrupt" } else if precision_only(&r4, &fresh[other]) { "recursive_ambig_precision_depends_on_history" } else { "recursive_cache_after_interrupt" };
                     fail_once(out, &mut seen, &format!("{}: after an interrupted solve of `{}` (callback false: {}) the goal `{}` is answered {} but a fresh solver answers {}", name, low.goals[gi].0, sname, low.goals[other].0, render(&r4), render(&fresh[other])), &input(&format!("; then solve {}", low.goals[other].0)), c);
                 }
             }
@@ -1519,6 +1520,10 @@ pub fn oracle_c12(ctx: &Ctx, out: &mut Out, s: &Subject, rng: &mut Rng) {
                             (_, "slg") => "slg_strand_lost_after_panic".to_string(),
                             (Err(m), _) if m.contains("stack.is_empty()") => "recursive_stack_not_reset_after_panic".to_string(),
                             (Err(_), _) => "recursive_panic_after_panic".to_string(),
+                            // what was cached before the panic is already entry-point dependent (F13)
+                            (Ok(_), _) if is_mixed(s) => "recursive_mixed_cycle_cached".to_string(),
+                            // a partial run leaves other cache entries than a complete one: precision only
+                            (Ok(_), n) if n != "slg" && precision_only(&a, &fresh[o]) => "recursive_ambig_precision_depends_on_history".to_string(),
                             _ => "recursive_wrong_answer_after_panic".to_string(),
                         };
                         fail_once(
